@@ -602,13 +602,16 @@ func main() {
 		fs := flag.NewFlagSet("gen-decl", flag.ExitOnError)
 		seed := fs.Int64("seed", 1, "")
 		n := fs.Int("n", 1000, "")
+		repeat := fs.Int("repeat", 1, "")
 		out := fs.String("scen", "scen.ndjson", "")
 		fs.Parse(os.Args[2:])
 		r := rand.New(rand.NewSource(*seed))
 		f, _ := os.Create(*out)
 		w := bufio.NewWriter(f)
 		for i := 1; i <= *n; i++ {
-			w.Write(marshalLine(genDecl(r, i)))
+			sc := genDecl(r, i)
+			sc.Repeat = *repeat
+			w.Write(marshalLine(sc))
 		}
 		w.Flush()
 		f.Close()
@@ -616,13 +619,16 @@ func main() {
 		fs := flag.NewFlagSet("gen-closest", flag.ExitOnError)
 		seed := fs.Int64("seed", 1, "")
 		n := fs.Int("n", 1000, "")
+		repeat := fs.Int("repeat", 1, "")
 		out := fs.String("scen", "scen.ndjson", "")
 		fs.Parse(os.Args[2:])
 		r := rand.New(rand.NewSource(*seed))
 		f, _ := os.Create(*out)
 		w := bufio.NewWriter(f)
 		for i := 1; i <= *n; i++ {
-			w.Write(marshalLine(genClosest(r, i)))
+			sc := genClosest(r, i)
+			sc.Repeat = *repeat
+			w.Write(marshalLine(sc))
 		}
 		w.Flush()
 		f.Close()
